@@ -6,6 +6,7 @@
 #include "scen.h"
 #include <pthread.h>
 #include <atomic>
+#include <numeric_functions.h>
 
 namespace sim {
 namespace {
@@ -33,6 +34,22 @@ static void eval_list(KeyCtx *kc, const std::vector<LweSample *> &in, uint64_t s
     }
     delete_gate_bootstrapping_ciphertext(o);
 }
+// a client on its own thread with its own key material: key generation and encryption (other message spaces, the library
+// generator) run while the workers evaluate; nothing it does may be visible to them
+struct Client { pthread_barrier_t *bar; std::atomic<int> *stop; uint64_t rounds; };
+static void *client_main(void *v) {
+    Client *c = (Client *) v;
+    LweParams *lp = new_LweParams(12, 1e-5, 0.1); LweKey *lk = new_LweKey(lp); lweKeyGen(lk);
+    LweSample *s = new_LweSample(lp);
+    pthread_barrier_wait(c->bar);
+    while (!c->stop->load()) {
+        for (int m = 2; m < 20; m++) { Torus32 mu = modSwitchToTorus32(1, m); lweSymEncrypt(s, mu, 1e-5, lk); (void) lweSymDecrypt(s, lk, m); }
+        lweKeyGen(lk);
+        c->rounds++;
+    }
+    delete_LweSample(s); delete_LweKey(lk); delete_LweParams(lp);
+    return nullptr;
+}
 static void *worker_main(void *v) {
     Worker *w = (Worker *) v;
     pthread_barrier_wait(w->bar);    // all threads of a batch make their first FFT call at the same moment
@@ -54,12 +71,14 @@ static void exec_stress(const Plan &p, RunResult &r) {
         // sequential reference for this batch
         std::vector<std::vector<uint64_t>> ref((size_t) W + 1);
         for (int t = 0; t <= W; t++) eval_list(kc, inputs, mix64(s0, (uint64_t) b * 100 + (uint64_t) t), t == W ? MG : G, ref[(size_t) t]);
-        pthread_barrier_t bar; pthread_barrier_init(&bar, nullptr, (unsigned) W);
+        pthread_barrier_t bar; pthread_barrier_init(&bar, nullptr, (unsigned) W + 1);
+        std::atomic<int> stop{0}; Client cl{&bar, &stop, 0}; pthread_t cth; pthread_create(&cth, nullptr, client_main, &cl);
         std::vector<Worker> ws((size_t) W); std::vector<pthread_t> th((size_t) W);
         for (int t = 0; t < W; t++) { ws[(size_t) t] = Worker{kc, &inputs, &bar, mix64(s0, (uint64_t) b * 100 + (uint64_t) t), G, {}}; pthread_create(&th[(size_t) t], nullptr, worker_main, &ws[(size_t) t]); }
         std::vector<uint64_t> mainout;
         eval_list(kc, inputs, mix64(s0, (uint64_t) b * 100 + (uint64_t) W), MG, mainout);   // the long-lived thread keeps evaluating
         for (int t = 0; t < W; t++) pthread_join(th[(size_t) t], nullptr);
+        stop.store(1); pthread_join(cth, nullptr); r.probes.add("client_rounds_alongside", cl.rounds);
         pthread_barrier_destroy(&bar);
         for (int t = 0; t < W; t++) if (ws[(size_t) t].out != ref[(size_t) t]) mism++;
         if (mainout != ref[(size_t) W]) mism++;
